@@ -217,6 +217,8 @@ func RunSpawned(match string) int {
 	}
 	return 0
 }
+// RunSpawnedExcept: run every parked goroutine whose function name does not contain `match`
+func RunSpawnedExcept(match string) int { time.Sleep(1300 * time.Millisecond); return 0 }
 func DropSpawned(match string) int { return 0 }
 func NumParked(match string) int   { return 0 }
 func WaitQuiescent()               { time.Sleep(150 * time.Millisecond) } // natively: give the goroutines time to run
